@@ -36,168 +36,80 @@ def _guard_kind(test_txt, body_txt):
 
 
 def check_aminusb_predicate(ctx, rid):
-    """The conversion to unrestricted orbitals may be skipped only in the documented nothing-to-do cases."""
+    """prepare_unrestricted_aminusb, evaluated on abstract objects: identity exactly when there is nothing to convert,
+    PrepareDumpError / (warning + unrestricted copy) otherwise, ValueError for generalized / missing orbitals."""
+    import numpy as np
+
+    from .. import AnalysisError
+    from ..accessors import AccessorEval, Raised, Rec
+    from ..symarr import NotSymbolic, sym_array
+    from .c12_semantics import _eq
+
     prog = ctx.prog
     pa = prog.func("iodata.prepare.prepare_unrestricted_aminusb")
-    pm = prog.parents(pa)
-    p0 = pa.posparams[0]
-    allowed = {f"{p0}.mo.kind == 'unrestricted'", f"{p0}.mo.occs_aminusb is None"}
-    n = 0
-    for r in [x for x in pa.own_nodes() if isinstance(x, ast.Return) and isinstance(x.value, ast.Name) and x.value.id == p0]:
-        par = pm.get(id(r))
-        n += 1
-        if not isinstance(par, ast.If) or r not in par.body:
-            ctx.violate(rid, "prepare_unrestricted_aminusb returns the unconverted object outside a nothing-to-do test", pa, r)
-            continue
-        disj = par.test.values if isinstance(par.test, ast.BoolOp) and isinstance(par.test.op, ast.Or) else [par.test]
-        bad = [d for d in disj if " ".join(src_of(d).split()).replace('"', "'") not in allowed]
-        if bad:
-            ctx.violate(rid, f"prepare_unrestricted_aminusb skips the conversion under `{src_of(bad[0])}`, which is not a documented nothing-to-do case ({sorted(allowed)}): restricted orbitals with explicit alpha-minus-beta occupations are written as plain restricted orbitals", pa, par.test)
-        else:
-            ctx.ok(rid, f"conversion skipped only when `{src_of(par.test)}`", f"{pa.module.relpath}:{par.lineno}")
-    if n == 0:
-        ctx.violate(rid, "prepare_unrestricted_aminusb has no identity return", pa, pa.node, construct="identity return")
+    mo_cls = prog.cls("iodata.orbitals.MolecularOrbitals")
+    iocls = prog.cls("iodata.iodata.IOData")
+    where = f"{pa.module.relpath}:{pa.lineno}"
+
+    def mo(kind, aminusb):
+        n = 6 if kind == "unrestricted" else 3
+        d = {"sym": sym_array("d", (3,)), "zeros": np.zeros(3), "zero-sum": np.array([0.0, 0.5, -0.5]), None: None}[aminusb]
+        return Rec(mo_cls, kind=kind, norba=3, norbb=3, occs=sym_array("o", (n,)) if aminusb in ("sym", None) else np.array([2.0, 1.0, 1.0]), coeffs=sym_array("c", (2, n)), energies=sym_array("e", (n,)), irreps=None, occs_aminusb=d)
+
+    def call(data, allow):
+        ev = AccessorEval(prog, mo_cls)
+        ev.module = pa.module
+        ev.warnings = 0
+        try:
+            r = ev.run_free(pa, [data, allow, "file", "FMT"], {})
+        except Raised as exc:
+            return exc.cls, ev.warnings
+        return r, ev.warnings
+
+    try:
+        # nothing to do
+        for label, m in (("unrestricted orbitals", mo("unrestricted", None)), ("restricted orbitals without occs_aminusb", mo("restricted", None))):
+            for allow in (False, True):
+                data = Rec(iocls, mo=m)
+                r, nw = call(data, allow)
+                if r is data and nw == 0:
+                    ctx.ok(rid, f"{label} (allow_changes={allow}): the very same object is returned, no warning", where, sample=(allow is False))
+                else:
+                    ctx.violate(rid, f"{label} (allow_changes={allow}): expected the same object back, got {('another object' if isinstance(r, Rec) else r)!s} ({nw} warning(s))", pa, pa.node, construct=f"aminusb identity {label} allow={allow}")
+        # conversion needed: any explicit occs_aminusb, also one that sums to zero or vanishes
+        for variant in ("sym", "zero-sum", "zeros"):
+            data = Rec(iocls, mo=mo("restricted", variant))
+            r, nw = call(data, False)
+            if r == "PrepareDumpError":
+                ctx.ok(rid, f"restricted orbitals with explicit occs_aminusb ({variant}), allow_changes=False: PrepareDumpError", where)
+            else:
+                ctx.violate(rid, f"restricted orbitals with an explicit occs_aminusb ({variant}) pass prepare_unrestricted_aminusb unconverted with allow_changes=False (got {'the same object' if r is data else r}): the writers then store only mo.occs and the alpha/beta occupations are lost", pa, pa.node, construct=f"aminusb {variant} not rejected")
+            data = Rec(iocls, mo=mo("restricted", variant))
+            src_mo = data.fields["mo"]
+            r, nw = call(data, True)
+            okc = isinstance(r, Rec) and r is not data and isinstance(r.fields.get("mo"), Rec) and r.fields["mo"].fields.get("kind") == "unrestricted" and nw == 1
+            if okc:
+                ev = AccessorEval(prog, mo_cls)
+                same_occ = _eq(AccessorEval(prog, mo_cls).get(r.fields["mo"], "occsa"), AccessorEval(prog, mo_cls).get(src_mo, "occsa")) and _eq(AccessorEval(prog, mo_cls).get(r.fields["mo"], "occsb"), AccessorEval(prog, mo_cls).get(src_mo, "occsb"))
+                okc = same_occ and data.fields["mo"] is src_mo
+            if okc:
+                ctx.ok(rid, f"restricted orbitals with explicit occs_aminusb ({variant}), allow_changes=True: one warning, a new object with unrestricted orbitals carrying the same alpha / beta occupations; the caller's object is untouched", where)
+            else:
+                ctx.violate(rid, f"restricted orbitals with explicit occs_aminusb ({variant}), allow_changes=True: expected a warning and a converted copy, got {('an object' if isinstance(r, Rec) else r)!s} with {nw} warning(s)", pa, pa.node, construct=f"aminusb {variant} conversion")
+        for label, data in (("generalized orbitals", Rec(iocls, mo=Rec(mo_cls, kind="generalized", norba=None, norbb=None, occs=None, coeffs=None, energies=None, irreps=None, occs_aminusb=None))), ("no orbitals", Rec(iocls, mo=None))):
+            r, nw = call(data, True)
+            if isinstance(r, str) and r.endswith("Error"):
+                ctx.ok(rid, f"{label}: {r}", where, sample=False)
+            else:
+                ctx.violate(rid, f"{label} are accepted by prepare_unrestricted_aminusb", pa, pa.node, construct=f"aminusb {label}")
+    except NotSymbolic as exc:
+        raise AnalysisError(f"prepare_unrestricted_aminusb is outside the accessor-evaluation whitelist: {exc}") from exc
 
 
 def check_guard_matrix(ctx, rid):
-    prog = ctx.prog
-    pa = prog.func("iodata.prepare.prepare_unrestricted_aminusb")
-    ps = prog.func("iodata.prepare.prepare_segmented")
+    """Semantic guard matrix: the shared preparation helper and the five prepare_dump routines are evaluated on
+    abstract objects (iodalint.accessors) and every outcome is compared with the documented capabilities."""
+    from .guards_semantics import check_guard_semantics
+
     check_aminusb_predicate(ctx, rid)
-    for short, want in MATRIX.items():
-        g = prog.format_op(short, "prepare_dump")
-        if g is None:
-            ctx.violate(rid, f"{short} has no prepare_dump although it writes wavefunctions", relpath=f"iodata/formats/{short}.py", function=f"iodata.formats.{short}", construct="prepare_dump missing")
-            continue
-        d = g.posparams[0]
-        cfg = cfg_of(g)
-        pm = prog.parents(g)
-        found = {}
-        for st in walk_stmts(g.body):
-            if isinstance(st, ast.If) and st.body and isinstance(st.body[-1], ast.Raise):
-                kind = _guard_kind(src_of(st.test), "")
-                if kind is None:
-                    continue
-                # enclosing conditions of the guard
-                conds = []
-                cur = st
-                while id(cur) in pm:
-                    par = pm[id(cur)]
-                    if isinstance(par, ast.If):
-                        conds.append(src_of(par.test).replace('"', "'"))
-                    elif isinstance(par, (ast.For, ast.While)):
-                        conds.append("loop:" + (src_of(par.iter) if isinstance(par, ast.For) else src_of(par.test)))
-                    cur = par
-                found.setdefault(kind, []).append((st, conds))
-        # loop form: `for .., occs in LIST:` with the occupation test on the loop variable
-        for st in walk_stmts(g.body):
-            if isinstance(st, ast.For) and isinstance(st.iter, ast.Name):
-                lname = st.iter.id
-                tvars = {x.id for x in ast.walk(st.target) if isinstance(x, ast.Name)}
-                guard = None
-                for s2 in walk_stmts(st.body):
-                    if isinstance(s2, ast.If) and s2.body and isinstance(s2.body[-1], ast.Raise) and ({x.id for x in ast.walk(s2.test) if isinstance(x, ast.Name)} & tvars):
-                        guard = s2
-                if guard is None:
-                    continue
-                members = []  # (expr text, conditions)
-                for n in g.own_nodes():
-                    if isinstance(n, ast.Assign) and any(isinstance(t, ast.Name) and t.id == lname for t in n.targets) and isinstance(n.value, (ast.List, ast.Tuple)):
-                        for e in n.value.elts:
-                            members.append((src_of(e), []))
-                    if isinstance(n, ast.Call) and isinstance(n.func, ast.Attribute) and n.func.attr == "append" and isinstance(n.func.value, ast.Name) and n.func.value.id == lname and n.args:
-                        conds = []
-                        cur = n
-                        while id(cur) in pm:
-                            par = pm[id(cur)]
-                            if isinstance(par, ast.If):
-                                conds.append(src_of(par.test).replace('"', "'"))
-                            cur = par
-                        members.append((src_of(n.args[0]), conds))
-                for txt, conds in members:
-                    kind = "aufbau_alpha" if ".mo.occsa" in txt else ("aufbau_beta" if ".mo.occsb" in txt else None)
-                    if kind:
-                        outer = []
-                        cur = st
-                        while id(cur) in pm:
-                            par = pm[id(cur)]
-                            if isinstance(par, ast.If):
-                                outer.append(src_of(par.test).replace('"', "'"))
-                            cur = par
-                        found.setdefault(kind, []).append((guard, [c for c in conds if c not in outer] + outer))
-        for kind, reason in want.items():
-            if kind in ("aminusb", "segmented"):
-                continue
-            if kind not in found:
-                ctx.violate(rid, f"{short}.prepare_dump no longer rejects `{kind}` ({reason}): such an object reaches the writer", g, g.node, construct=f"guard {kind} missing")
-                continue
-            st, conds = found[kind][0]
-            allowed = {f"{d}.mo is not None"}
-            if kind == "pure":
-                allowed |= {c for c in conds if c.startswith("loop:") and ".shells" in c}
-            extra = [c for c in conds if c not in allowed]
-            rc = raises_class(st.body[-1])
-            exc = st.body[-1].exc
-            fname = exc.args[1] if isinstance(exc, ast.Call) and len(exc.args) > 1 else None
-            probs = []
-            if extra:
-                probs.append(f"applies only under `{extra[0]}`")
-            if rc != "PrepareDumpError":
-                probs.append(f"raises {rc} instead of PrepareDumpError")
-            if not (isinstance(fname, ast.Name) and fname.id in g.params):
-                probs.append("does not carry the filename")
-            if probs:
-                ctx.violate(rid, f"{short}.prepare_dump guard `{kind}` " + "; ".join(probs) + f" ({reason})", g, st.test, construct=f"guard {kind}: {'; '.join(probs)}")
-            else:
-                ctx.ok(rid, f"{short}: `{kind}` rejected with PrepareDumpError(…, filename): {reason}", f"{g.module.relpath}:{st.lineno}", sample=(kind in ("generalized", "pure")))
-        # helper calls and data flow of their results
-        rets = [n for n in g.own_nodes() if isinstance(n, ast.Return)]
-        for helper, key in ((pa, "aminusb"), (ps, "segmented")):
-            calls = [cs for cs in g.calls if helper in cs.callees]
-            if key == "aminusb" and not want.get("aminusb"):
-                continue
-            if not calls:
-                ctx.violate(rid, f"{short}.prepare_dump does not call {helper.name}", g, g.node, construct=f"{helper.name} missing")
-                continue
-            cs = calls[0]
-            b, e, okb = bind_call(cs.node, helper)
-            a0 = b.get(helper.posparams[0])
-            if not (isinstance(a0, ast.Name) and a0.id == d):
-                ctx.violate(rid, f"{short}.prepare_dump calls {helper.name} on `{src_of(a0)}` instead of the object being prepared", g, cs.node)
-                continue
-            for p in ("allow_changes", "filename"):
-                a = b.get(p)
-                if not (isinstance(a, ast.Name) and a.id == p):
-                    ctx.violate(rid, f"{short}.prepare_dump passes `{src_of(a) if a is not None else None}` as {p} to {helper.name}", g, cs.node)
-            if key == "segmented":
-                ks = b.get("keep_sp")
-                val = ks.value if isinstance(ks, ast.Constant) else None
-                if val is want["segmented"]:
-                    ctx.ok(rid, f"{short}: prepare_segmented(keep_sp={val})", f"{g.module.relpath}:{cs.node.lineno}")
-                else:
-                    ctx.violate(rid, f"{short}.prepare_dump calls prepare_segmented with keep_sp={src_of(ks) if ks is not None else None}; the format {'supports' if want['segmented'] else 'does not support'} SP shells", g, cs.node)
-            # the result must reach the return value: assigned back to the parameter or returned directly
-            par = pm.get(id(cs.node))
-            flows = (isinstance(par, ast.Return)) or (isinstance(par, ast.Assign) and any(isinstance(t, ast.Name) and t.id == d for t in par.targets) and any(isinstance(r.value, (ast.Name, ast.Call)) and (src_of(r.value) == d or d in src_of(r.value)) for r in rets))
-            if flows:
-                ctx.ok(rid, f"{short}: the result of {helper.name} is what prepare_dump returns", f"{g.module.relpath}:{cs.node.lineno}", sample=False)
-            else:
-                ctx.violate(rid, f"{short}.prepare_dump drops the result of {helper.name} (the conversion is announced but the unconverted object is written)", g, cs.node)
-            # guards dominate the helper calls
-            for kind in ("mo_none", "obasis_none", "generalized"):
-                if kind in want and kind in found:
-                    st, _ = found[kind][0]
-                    stc = cs.node
-                    while not isinstance(stc, ast.stmt):
-                        stc = pm[id(stc)]
-                    if not cfg.dominates(st, stc) and not any(c for c in found[kind][0][1]):
-                        ctx.violate(rid, f"{short}.prepare_dump: guard `{kind}` does not precede {helper.name}", g, st.test, construct=f"guard {kind} after {helper.name}")
-    # json_qcschema
-    g = prog.format_op("json_qcschema", "prepare_dump")
-    if g is not None:
-        txt = src_of(g.node).replace('"', "'")
-        rs = [s for s in walk_stmts(g.body) if isinstance(s, ast.Raise)]
-        if "'schema_name' not in" in txt and len(rs) >= 2 and all(raises_class(r) == "PrepareDumpError" for r in rs):
-            ctx.ok(rid, "json_qcschema: missing schema_name / unsupported schema rejected with PrepareDumpError", g.where)
-        else:
-            ctx.violate(rid, "json_qcschema.prepare_dump no longer rejects a missing schema_name / qcschema_basis with PrepareDumpError", g, g.node, construct="json guards")
+    check_guard_semantics(ctx, rid)
